@@ -40,7 +40,8 @@ func c14matrix(mat [][]float64, tips []*tree.Node) (*Sexp, *Sexp) {
 //	((op avg) (metric m) (trees (T ...)))             obs ((err msg) (names (...)) (matrix (...)))
 //	((op cut) (maxlen q) (tree T))                    obs ((err msg) (bags (("a" ...) ...)))
 //
-// The library is called the way cmd/matrix.go and cmd/brlencut.go call it; the rows and
+// The library is called the way cmd/matrix.go and cmd/brlencut.go call it (trees as the
+// parser leaves them: no index is computed); the rows and
 // columns are read over the returned tips and the bags through TipBag.Tips(), as the
 // commands print them.
 func c14(c *Sexp) *Sexp {
@@ -49,9 +50,6 @@ func c14(c *Sexp) *Sexp {
 		t, err := BuildTree(c.Get("tree"))
 		if err != nil {
 			return L(KV("panic", A("build: "+err.Error())))
-		}
-		if err := t.ReinitIndexes(); err != nil {
-			return L(KV("panic", A("reinit: "+err.Error())))
 		}
 		mat, tips := t.ToDistanceMatrix(c14metric(c.Str("metric")))
 		names, m := c14matrix(mat, tips)
@@ -66,9 +64,6 @@ func c14(c *Sexp) *Sexp {
 			t, err := BuildTree(s)
 			if err != nil {
 				return L(KV("panic", A("build: "+err.Error())))
-			}
-			if err := t.ReinitIndexes(); err != nil {
-				return L(KV("panic", A("reinit: "+err.Error())))
 			}
 			trees = append(trees, t)
 		}
@@ -88,9 +83,6 @@ func c14(c *Sexp) *Sexp {
 		t, err := BuildTree(c.Get("tree"))
 		if err != nil {
 			return L(KV("panic", A("build: "+err.Error())))
-		}
-		if err := t.ReinitIndexes(); err != nil {
-			return L(KV("panic", A("reinit: "+err.Error())))
 		}
 		bags, cerr := t.CutEdgesMaxLength(c.Float("maxlen"))
 		bl := L()
